@@ -342,6 +342,17 @@ def check(case, obs, tally):
                                       getattr(obs, "tasks_left_names", None), blocked)})
         elif not all_returned:
             tally.notes["release-not-judged:application-still-running"] += 1
+        elif lost and ft is not None:
+            # promptness: once the peer is gone the transport is closed as soon as the applications have returned
+            tally.clause("release-prompt")
+            last_exit = max([e[1] for e in obs.app_events(kind="exit")] + [ft])
+            done_at = obs.eof_at if obs.backend == "asyncio" and obs.eof_at is not None else closed_at
+            if obs.backend == "asyncio" and fault != "eof":
+                done_at = None  # reset / write failure: the transport is already gone, nothing to observe
+            if done_at is not None and done_at > last_exit + EPS:
+                out.append({"clause": "release", "sig": "C07.release-delayed/%s/peer-%s" % (proto, fault),
+                            "detail": "peer gone at %.6f, last application returned at %.6f, but the server closed its side only at %.6f "
+                                      "(keep_alive_timeout %s)" % (ft, last_exit, done_at, T)})
     return out
 
 
